@@ -35,6 +35,9 @@ def mir_dump(repo=REPO, want_smir=False, log=print):
     th = tree_hash(repo)
     d = os.path.join(CACHE, 'mir', th[:24]); os.makedirs(d, exist_ok=True)
     mirp, smirp, srcp = os.path.join(d, 'mir.txt'), os.path.join(d, 'smir.txt'), os.path.join(d, 'src')
+    # checks started at the same time share this cache: one of them dumps, the others wait for the lock and find the files
+    import fcntl
+    lock = open(os.path.join(d, '.lock'), 'w'); fcntl.flock(lock, fcntl.LOCK_EX)
     need = [p for p in ([mirp] + ([smirp] if want_smir else [])) if not os.path.exists(p)]
     if need or not os.path.isdir(srcp):
         scratch = tempfile.mkdtemp(prefix='umya-mir-'); _scratch.append(scratch)
@@ -61,9 +64,11 @@ def mir_dump(repo=REPO, want_smir=False, log=print):
         # keep the cache small: only the 4 most recent trees
         root = os.path.join(CACHE, 'mir')
         ds = sorted((os.path.join(root, x) for x in os.listdir(root)), key=os.path.getmtime)
-        for old in ds[:-4]: shutil.rmtree(old, ignore_errors=True)
+        for old in ds[:-4]:
+            if old != d: shutil.rmtree(old, ignore_errors=True)
     else:
         os.utime(d)
+    fcntl.flock(lock, fcntl.LOCK_UN); lock.close()
     sha = hashlib.sha256(open(mirp, 'rb').read()).hexdigest()
     return {'mir': mirp, 'smir': smirp if want_smir else None, 'src': srcp, 'tree_hash': th, 'mir_sha256': sha}
 
